@@ -13,7 +13,7 @@
 (* _filter_objects / evaluate_frame assign the filtered lists back onto    *)
 (* the shared FrameGroundTruth object.                                     *)
 (***************************************************************************)
-EXTENDS Manager
+EXTENDS Manager, Analyzer
 
 CONSTANTS Dataset,        \* sequence of ground-truth lists (one per dataset frame)
           EstVariants,    \* sequence of estimate lists
@@ -22,8 +22,9 @@ CONSTANTS Dataset,        \* sequence of ground-truth lists (one per dataset fra
           TheCfg,         \* manager configuration
           MaxCalls, AsBuiltAliasedGT, PoolN, PoolL
 
-VARIABLES store, frameResults, cur, scene
-hvars == <<store, frameResults, cur, scene>>
+VARIABLES store, frameResults, cur, scene,
+          table          \* what the analysis table built from frameResults must hold (Analyzer.tla)
+hvars == <<store, frameResults, cur, scene, table>>
 allvars == <<mgrvars, hvars>>
 
 POOL == INSTANCE Ap WITH W <- 1, N <- PoolN, L <- PoolL
@@ -34,14 +35,14 @@ NoFrame == [ests |-> <<>>, gts |-> <<>>, crit |-> CritVariants[1], pf |-> Pf, gt
 HInit == /\ cfg = TheCfg /\ frame = NoFrame
          /\ pc = "idle" /\ e1 = <<>> /\ g1 = <<>> /\ rs = <<>> /\ rs2 = <<>> /\ g2 = <<>>
          /\ tp = {} /\ fp = {} /\ fn = {} /\ tn = {} /\ aps = <<>>
-         /\ store = InitialStore /\ frameResults = <<>> /\ cur = <<>> /\ scene = <<>>
+         /\ store = InitialStore /\ frameResults = <<>> /\ cur = <<>> /\ scene = <<>> /\ table = <<>>
 
 BeginAdd(i, ev, cv) ==
   /\ pc = "idle" /\ Len(frameResults) < MaxCalls
   /\ frame' = [ests |-> EstVariants[ev], gts |-> Dataset[i], crit |-> CritVariants[cv], pf |-> Pf, gtIds |-> store[i]]
   /\ cur' = [i |-> i, ev |-> ev, cv |-> cv]
   /\ pc' = "filter"
-  /\ UNCHANGED <<cfg, e1, g1, rs, rs2, g2, tp, fp, fn, tn, aps, store, frameResults, scene>>
+  /\ UNCHANGED <<cfg, e1, g1, rs, rs2, g2, tp, fp, fn, tn, aps, store, frameResults, scene, table>>
 
 \* <<confidence, kind>> of every result of the committed frame that falls into label lb's bucket, in result order
 EntriesOf(lb) ==
@@ -51,7 +52,7 @@ EntriesOf(lb) ==
                   ELSE (IF k \in idx THEN <<<<Ests[rs2[k][1]].conf, EntryKind(rs2[k], lb, cfg.cd)>>>> ELSE <<>>) \o Build(k + 1)
   IN Build(1)
 
-Record == [i |-> cur.i, ev |-> cur.ev, cv |-> cur.cv, rs2 |-> rs2, g2 |-> g2, tp |-> tp, fp |-> fp, fn |-> fn, tn |-> tn, aps |-> aps,
+Record == [i |-> cur.i, ev |-> cur.ev, cv |-> cur.cv, ests |-> frame.ests, gts |-> frame.gts, rs2 |-> rs2, g2 |-> g2, tp |-> tp, fp |-> fp, fn |-> fn, tn |-> tn, aps |-> aps,
            entries |-> [k \in 1..Len(cfg.targets) |-> EntriesOf(cfg.targets[k])],
            numgt |-> [k \in 1..Len(cfg.targets) |-> NumGt(g2, cfg.targets[k])]]
 
@@ -76,6 +77,7 @@ Commit ==
   /\ pc = "done"
   /\ frameResults' = Append(frameResults, Record)
   /\ scene' = SceneAps(frameResults')
+  /\ table' = Table(frameResults')
   /\ store' = IF AsBuiltAliasedGT THEN [store EXCEPT ![cur.i] = g2] ELSE store
   /\ pc' = "idle"
   /\ UNCHANGED <<cfg, frame, e1, g1, rs, rs2, g2, tp, fp, fn, tn, aps, cur>>
@@ -106,5 +108,8 @@ OrderIndependence == (Len(frameResults) >= 2 /\ DistinctConf(frameResults)) => S
 \* the caller's estimate list is an input: the step machine never writes frame.ests (InputsUntouched of Manager.tla)
 \* while a call is being evaluated its inputs (estimates, configurations, the ground truth handed in) are not written
 InputsOnlyChangeAtBegin == [][pc # "idle" => UNCHANGED <<cfg, frame>>]_allvars
+\* C19 on every committed frame result
+AnalyzerCounts == \A n \in 1..Len(frameResults) :
+   StatusCounts(frameResults[n]) /\ GtRowsAreCritical(frameResults[n]) /\ GtCountAsBuilt(frameResults[n])
 SceneApWithinUnit == \A k \in 1..Len(scene) : scene[k][1] = -1 \/ (0 <= scene[k][1] /\ scene[k][1] <= scene[k][2])
 =============================================================================
